@@ -1000,6 +1000,8 @@ def r7(F, rep):
 
 
 def run(F, rep, tier):
+    from . import rules_c13
+    rules_c13.r13(F, rep, "C10-R8")   # a rejected duplicate does not remove the original's registry entry
     r6(F, rep)
     r7(F, rep)
     R1(F, rep).run()
